@@ -47,12 +47,15 @@ def json_dbs():
         'block': ['646f633030303032', '646f633030303033', '646f633030303034', 'AB00000000000001'],   # block boundary (B = 2), mixed case hex
         'ünï-cødé': ['00000000000000ff', '0100000000000000', '646f633030303031'],
     }
-    return [db1, db2]
+    db3 = {'only': ['00000000000000a1', '00000000000000a2', '00000000000000a3', '00000000000000a4']}   # one keyword holds the whole database, N = 2^2
+    db4 = {'lone': ['1122334455667788']}                                                                  # one keyword, one posting
+    return [db1, db2, db3, db4]
 
 
 def describe(tier):
     return {
-        'rule': 'case = (scheme, JSON database, placement): all 9 schemes x 2 JSON databases (the repository\'s example_db.json; one with a '
+        'rule': 'case = (scheme, JSON database, placement): all 9 schemes x 2 JSON databases (the repository\'s example_db.json; one with a ' 
+                '[plus, with 3 placements each: a one-keyword database of 4 postings and a one-keyword one-posting database] '
                 '1-posting keyword, a block-boundary list, mixed-case hex and a non-ASCII keyword) x ALL 2^6 placements of {keep the client '
                 'object, close_service() + Service(sid) reloaded from disk} over the 6 boundaries of create | genkey | encrypt | upload-config | '
                 'upload-index | search1 | search2, x server restart in {none, before search1, before search2} (with a reloaded client). The '
@@ -88,6 +91,7 @@ def units(tier, seed):
                 us.append(('%s/db%d/%d' % (name, dbi, k), {'scheme': name, 'dbi': dbi, 'lo': k, 'hi': k + CHUNK}))
     for name in sse.SCHEMES:
         us.append(('two-services/%s' % name, {'two': name}))
+        us.append(('small-dbs/%s' % name, {'smalldbs': name}))
     for name in ('CJJ14.PiBas', 'CGKO06.SSE1', 'DP17.Pi', 'CT14.Pi'):
         us.append(('keypatterns/%s' % name, {'keypatterns': name}))
     for name in sse.SCHEMES:
@@ -298,6 +302,12 @@ def run_unit(p, tier, seed):
     if 'two' in p:
         for order in (0, 1):
             run_two_services(r, seed, p['two'], order)
+        det.restore()
+        return r
+    if 'smalldbs' in p:
+        for dbi in (2, 3):
+            for bits in ([0] * 6, [1] * 6, [1, 0, 1, 0, 1, 0]):
+                run_case(r, seed, p['smalldbs'], dbi, bits, None)
         det.restore()
         return r
     if 'timing' in p:
